@@ -6,6 +6,9 @@ CONSTANTS
   Pids = {99}
   MaxFiles = 1
   ExtraNext = 1
+  HVSet = {TRUE}
+  HFSet = {FALSE}
+  ReuseSet = {FALSE}
   Emit = TRUE
   LargeFormats = {"gro", "pdb"}
   LargeTop = {}
